@@ -363,7 +363,7 @@ var flowVocab = [][2]string{
 	{"rangeOpts", "range:opts{"}, {"ifNilOpt", "if:opt == nil{"}, {"callOpt", "call:opt"}, {"callAppend", "call:append"}, {"callDelete", "call:delete"},
 	{"shardsLock", "call:bus.shards[].mu.Lock"}, {"shardsUnlock", "call:bus.shards[].mu.Unlock"}, {"setShardsHandlers", "set:bus.shards[].handlers"},
 	{"inflightCondWait", "call:c.cond.Wait"}, {"inflightBroadcast", "call:c.cond.Broadcast"}, {"setInflightN", "set:c.n"}, {"ifInflightZero", "if:c.n == 0 && c.cond != nil{"},
-	{"turnCondWait", "call:h.seqCond.Wait"}, {"turnBroadcast", "call:h.seqCond.Broadcast"}, {"setServing", "set:h.seqServing"},
+	{"turnCondWait", "call:h.seqCond.Wait"}, {"turnBroadcast", "call:h.seqCond.Broadcast"}, {"turnSignal", "call:h.seqCond.Signal"}, {"setServing", "set:h.seqServing"},
 	{"seqMuLock", "call:h.seqMu.Lock"}, {"seqMuUnlock", "call:h.seqMu.Unlock"},
 	{"memLock", "call:m.mu.Lock"}, {"memUnlockDeferred", "defer:m.mu.Unlock"}, {"memRLock", "call:m.mu.RLock"}, {"memRUnlockDeferred", "defer:m.mu.RUnlock"},
 	{"setNextOffset", "set:m.nextOffset"}, {"sprintf", "call:fmt.Sprintf"}, {"setMemEvents", "set:m.events"}, {"rangeMemEvents", "range:m.events{"},
